@@ -76,12 +76,12 @@ def decide(prop, tier, seed, scratch, repo, need_witness_for=()):
     # they only supply counterexamples (role witness-only) unless they also belong to this property
     for g, G in registry.KANI_GROUPS.items():
         for h in G["harnesses"]:
-            if need_units & set(h.get("witness_units", [])) and not any(h2["name"] == h["name"] for _, h2 in sel):
+            if need_units & set(h.get("witness_units", [])) and not any(h2["name"] == h["name"] and tuple(h2.get("features", ())) == tuple(h.get("features", ())) for _, h2 in sel):
                 # a harness may be tied to particular functions of its unit (witness_fns); a lost proof script ("<unit>") matches all
                 wf = h.get("witness_fns")
                 if wf and not any(f == "<unit>" or any(w in f for w in wf) for f in need_fns):
                     continue
-                sel.append((g, dict(h, role="witness-only", timeout=min(h.get("timeout", 300), 420))))
+                sel.append((g, dict(h, role="witness-only", timeout=h.get("witness_timeout", min(h.get("timeout", 300), 420)))))
     if not sel:
         return obligations, violations, undecided, info
     crate, err = make_copy(repo, scratch, sorted(set(g for g, _ in sel)))
